@@ -239,11 +239,18 @@ func vRunRdvScenario(scn vRdvScenario) []map[string]interface{} {
 	for i, u := range uuid {
 		uu[strconv.Itoa(i)] = u
 	}
+	// One client lives through the service-list change (as a long-running process would): a
+	// probe order remembered from before the change must not survive it.
+	rec := &vRdvRecorder{host: map[string]int{}}
+	for k := 1; k <= 9; k++ {
+		rec.host[fmt.Sprintf("keep.abcd%d.arvadosapi.com", k)] = 100 + k
+	}
+	kc := &KeepClient{
+		Arvados:       &arvadosclient.ArvadosClient{ApiToken: "verif-token", ApiServer: "localhost:9"},
+		Want_replicas: 1, Retries: 0, HTTPClient: rec, BlockCache: &BlockCache{},
+	}
+	otherData := []byte("another block")
 	observe := func(ids, writable []int) (rd, wr []int) {
-		rec := &vRdvRecorder{host: map[string]int{}}
-		for k := 1; k <= 9; k++ {
-			rec.host[fmt.Sprintf("keep.abcd%d.arvadosapi.com", k)] = 100 + k
-		}
 		isW := map[int]bool{}
 		for _, w := range writable {
 			isW[w] = true
@@ -256,12 +263,13 @@ func vRunRdvScenario(scn vRdvScenario) []map[string]interface{} {
 				uuid[id], host, !isW[id]))
 		}
 		rng.Shuffle(len(items), func(i, j int) { items[i], items[j] = items[j], items[i] })
-		kc := &KeepClient{
-			Arvados:       &arvadosclient.ArvadosClient{ApiToken: "verif-token", ApiServer: "localhost:9"},
-			Want_replicas: 1, Retries: 0, HTTPClient: rec, BlockCache: &BlockCache{},
-		}
 		if err := kc.LoadKeepServicesFromJSON(`{"items":[` + strings.Join(items, ",") + `]}`); err != nil {
 			panic(err)
+		}
+		if scn.ID%3 == 1 {
+			// sometimes another block is handled in between
+			kc.PutB(otherData)
+			rec.take()
 		}
 		if r, _, _, err := kc.Get(loc); err == nil {
 			r.Close()
@@ -270,6 +278,15 @@ func vRunRdvScenario(scn vRdvScenario) []map[string]interface{} {
 		rd = rec.take()
 		kc.PutB(data)
 		wr = rec.take()
+		if scn.ID%2 == 0 {
+			// the order must not depend on what was asked before: ask again
+			if r, _, _, err := kc.Get(loc); err == nil {
+				r.Close()
+			}
+			if rd2 := rec.take(); !vRdvEqual(rd, rd2) {
+				rd = rd2
+			}
+		}
 		return
 	}
 
